@@ -43,7 +43,7 @@ Qed.
 Theorem issue_no_panic E kvs0 paths max_decoys cnf header :
   (forall h p, ie_sign E h p <> Panic) -> issue E (JObj kvs0) paths max_decoys cnf header <> Panic.
 Proof.
-  intros Hs. unfold issue.
+  intros Hs. unfold issue. destruct (has_reserved true (JObj kvs0)); [discriminate|].
   destruct (issue_fold E (JObj kvs0) paths (ie_salts E)) as [[c1 ds]|] eqn:Ef; cbn [of_res obind]; [|discriminate].
   pose proof (issue_fold_obj E paths (ie_salts E) (JObj kvs0) c1 ds I Ef) as Ho.
   destruct c1; try contradiction.
@@ -87,3 +87,8 @@ Lemma disclose_here_non_numeric E key salt xs : parse_usize key = None -> disclo
 Proof. intros Hp. unfold disclose_here. cbn. rewrite Hp. reflexivity. Qed.
 Lemma disclose_here_scalar E key salt j : (forall xs, j <> JArr xs) -> (forall kvs, j <> JObj kvs) -> disclose_here E key salt j = Err.
 Proof. intros Ha Ho. unfold disclose_here. destruct j; try reflexivity; exfalso; [eapply Ha|eapply Ho]; reflexivity. Qed.
+
+(* repair F19: claims that use a reserved name (_sd or ... anywhere, _sd_alg at the top level) are refused *)
+Theorem issue_reserved_refused E claims paths max_decoys cnf header :
+  has_reserved true claims = true -> issue E claims paths max_decoys cnf header = Fail.
+Proof. intros Hr. unfold issue. rewrite Hr. reflexivity. Qed.
